@@ -387,11 +387,16 @@ var explains = map[string]map[string]bool{
 	"schema:null-body":                              {"leaked": true},
 	"schema:request-body-documented-required":       {"leaked": true},
 	"schema:map-length-not-documented":              {"rejected:invalid_length": true},
-	"schema:bytes-length-on-base64-text":            {"rejected:invalid_length": true, "leaked": true},
+	"schema:bytes-length-on-base64-text":            {"rejected:invalid_length": true, "leaked": true, "refused:*": true},
+	"doc:error-media-type":                          {"refused:*": true},
+	"doc:responses-sharing-status":                  {"refused:*": true},
+	"doc:set-cookie-header-schema":                  {"refused:*": true},
+	"doc:header-mapped-attribute-in-body-schema":    {"refused:*": true},
+	"doc:catch-all-path-spans-segments":             {"rejected:*": true},
 	"header-array-multi":                            {"refused:*": true, "accepted": true, "mismatch:header-array": true},
 }
 
-var tagOrder = []string{"schema:map-key-elem-validation-not-documented", "schema:null-body", "schema:request-body-documented-required", "schema:map-length-not-documented", "schema:bytes-length-on-base64-text", "recursive-result-type", "tagged-response-header-absent", "required-object-outside-view", "both-exclusive-bounds", "required-cookie", "body-attr-absent", "path-value-with-slash", "header-array-multi", "absent-collection-minlen"}
+var tagOrder = []string{"doc:catch-all-path-spans-segments", "doc:error-media-type", "doc:set-cookie-header-schema", "doc:header-mapped-attribute-in-body-schema", "doc:responses-sharing-status", "schema:map-key-elem-validation-not-documented", "schema:null-body", "schema:request-body-documented-required", "schema:map-length-not-documented", "schema:bytes-length-on-base64-text", "recursive-result-type", "tagged-response-header-absent", "required-object-outside-view", "both-exclusive-bounds", "required-cookie", "body-attr-absent", "path-value-with-slash", "header-array-multi", "absent-collection-minlen"}
 
 // mkKey builds a violation key. class is the coarse finding class ("rejected:<name>", "leaked",
 // "misnamed:<name>", "refused:<name>", "accepted", "panic", "mismatch:..."). When the input belongs
